@@ -55,3 +55,9 @@ check('C13',
       'Primitive contents come from finite pools (repr() realises them); "same generated SQL" is outside. The oracle (eval/exec + comparison) runs untraced. Trusted: CrossHair+z3, the Q normal form in harness/c13.py.',
       'CrossHair symbolic execution (z3) of serialization.py serialize_to_python and get_evolution_content over symbolic shape choices; counterexamples replayed concretely',
       design_ref='5.10')
+
+check('C06',
+      'Bounded model checking of the real storage path: a project signature built from symbolic shape choices (field attributes, together-lists as lists/tuples, indexes with ordering prefixes/conditions/expressions/include/opclasses/tablespace, unique and check constraints with conditions and deferrability, upgrade method, applied migrations, app ids) is written with SignatureField._dumps, parsed back with SignatureField.to_python (json + OrderedDict hook) and must be equal, Diff-empty both ways and re-serialise to identical text; v2->v1->v2 for the v1-expressible subset.',
+      'Values come from finite pools; Version.save()/reload through the ORM and pickle-format v1 text are outside; field attrs are inserted in canonical order. One genuine defect (tuple-valued constraint attributes) is a known finding. Trusted: CrossHair+z3; equality/Diff of the results evaluated untraced.',
+      'CrossHair symbolic execution (z3) of signature.py serialize/deserialize, serialization.py and SignatureField over symbolic shape choices; counterexamples replayed concretely',
+      design_ref='5.5')
